@@ -21,6 +21,24 @@ type c09Inner struct {
 	Name string
 }
 
+// structs that embed other structs, by value and by (nil) pointer
+type c09Audit struct {
+	By   string
+	Rev  int
+	priv int
+}
+
+type c09Article struct {
+	*c09Audit
+	Title string
+}
+
+type c09Post struct {
+	c09Audit
+	*c09Inner
+	Title string
+}
+
 type c09Row struct {
 	ID    int
 	Title string
@@ -74,10 +92,22 @@ func hostileData() map[string]any {
 		"rowp": &c09Row{ID: 2, Ptr: nil},
 		"nilp": nilRow,
 		"rows": []*c09Row{{ID: 5}, nil, {ID: 6, Ptr: &c09Inner{}}},
+		"art":  c09Article{Title: "embedded pointer is nil"},
+		"art2": &c09Article{c09Audit: &c09Audit{By: "me", Rev: 2}, Title: "embedded pointer is set"},
+		"post": c09Post{Title: "embedded value and nil pointer"},
+		"arts": []c09Article{{Title: "a"}, {c09Audit: &c09Audit{}, Title: "b"}},
 	}
 }
 
-var hostileNames = []string{"i", "z", "neg", "big", "low", "u", "f", "fz", "fneg", "nan", "inf", "ninf", "tiny", "huge", "bad1", "bad2", "bad3", "bad4", "bad5", "s", "es", "num", "t", "no", "n", "arr", "ea", "na", "mix", "aa", "obj", "nm", "row", "rowp", "nilp", "rows", "nope"}
+func manyInts(n int) []int {
+	out := make([]int, n)
+	for i := range out {
+		out[i] = i
+	}
+	return out
+}
+
+var hostileNames = []string{"i", "z", "neg", "big", "low", "u", "f", "fz", "fneg", "nan", "inf", "ninf", "tiny", "huge", "bad1", "bad2", "bad3", "bad4", "bad5", "s", "es", "num", "t", "no", "n", "arr", "ea", "na", "mix", "aa", "obj", "nm", "row", "rowp", "nilp", "rows", "art", "art2", "post", "arts", "nope"}
 
 var allBuiltinNames = func() []string {
 	seen := map[string]bool{}
@@ -458,6 +488,41 @@ func init() {
 						data := map[string]any{"u": map[string]any{"K" + id: n}, "s": sv.Interface()}
 						return src, data, fmt.Sprintf("%d %d x%s 2 2 2", n, n, id)
 					})
+				}})
+			// integers around every power of two: as literals, stepped by ++/--, as loop counters, as loop metadata
+			// of long arrays; and arrays that a careless append could make part of themselves
+			pows := []int64{127, 128, 255, 256, 511, 512, 1023, 1024, 1025, 2047, 2048, 4095, 4096, 32767, 32768, 65535, 65536, 1 << 20, 1<<31 - 1, 1 << 31, 1 << 32}
+			secs = append(secs, core.Section{Name: "integer-ladder-and-self-reference", Exhaustive: true, N: len(pows) + 1,
+				Run: func(c *core.Ctx, i int) {
+					d := data
+					try := func(src string) {
+						c.Input(map[string]any{"source": clipS(src, 300), "data": "hostileData()"})
+						got := evalString(c, src, d)
+						c.Nontrivial(clipS(src, 80))
+						checkOutcome(c, got, clipS(src, 300), true)
+					}
+					if i == len(pows) {
+						d = map[string]any{"many": manyInts(1100), "arr": []int{3, 1, 2}}
+						for _, src := range []string{
+							"@each(x in many)@if(loop.index > 1020 && loop.index < 1030){{ loop.index }},{{ loop.iter }};@end@end", "@each(x in many)@if(loop.last){{ x }} {{ loop.iter }}@end@end",
+							"{{ many.len() }} {{ many[1024] }} {{ many.slice(1020, 1030) }} {{ many.reverse()[0] }}",
+							"{{ x = [1, 2, 3] }}{{ y = x.slice(0, 2).append(x) }}{{ x }}|{{ y }}", "{{ x = [1, 2, 3] }}{{ y = x.slice(0, 2).append(x) }}@dump(x)", "{{ x = [1, 2, 3] }}{{ y = x.slice(0, 2).append(x) }}{{ x.join(\"-\") }}{{ x.len() }}",
+							"{{ x = [1, 2, 3] }}{{ y = x.slice(1).prepend(x) }}{{ x }}{{ y }}", "{{ x = [[1], [2], [3]] }}{{ y = x.slice(0, 1).append(x[0]).append(x) }}{{ x }}{{ y.len() }}",
+							"{{ o = {a: [1, 2, 3]} }}{{ z = o.a.slice(0, 2).append(o) }}{{ o }}|@dump(o)", "{{ x = arr.slice(0, 2).append(arr) }}{{ arr }}|{{ x }}",
+						} {
+							try(src)
+						}
+						return
+					}
+					v := pows[i]
+					for _, d := range []int64{-2, -1, 0, 1, 2} {
+						n := v + d
+						try(fmt.Sprintf("{{ %d }}|{{ %d + 0 }}|{{ n = %d }}{{ n++ }}|{{ n-- }}|{{ -n }}|{{ n }}", n, n, n))
+						try(fmt.Sprintf("{{ [%d, %d][1] }}{{ {k: %d}.k }}{{ %d.str() }}{{ %d.float() }}{{ \"x\".repeat(%d - %d) }}", n, n, n, n, n, n, n))
+					}
+					try(fmt.Sprintf("@for(k = %d; k < %d; k++){{ k }},@end", v-3, v+3))
+					try(fmt.Sprintf("@for(k = %d; k > %d; k--){{ k }},@end", v+3, v-3))
+					try(fmt.Sprintf("{{ k = %d }}@each(p in [1, 2, 3, 4, 5, 6]){{ k = k + 1 }}{{ k++ }}{{ k-- }};@end{{ k }}", v-3))
 				}})
 			// the line of a run-time fault after k lines that end in LF, CRLF, or hold a stray CR
 			eols := []string{"\n", "\r\n", "\r \n", " \r x\n"}
